@@ -105,6 +105,19 @@ def global_state():
                 if k == "context":
                     v = "set"
                 out.append((cls.__name__ + "." + k, repr(_plain(v))[:500]))
+    # mutable default arguments of functions and methods (a shared `macros=[]` survives a file just like a global)
+    import inspect
+    for mname in sorted(m for m in sys.modules if m == "norminette" or m.startswith("norminette.")):
+        mod = sys.modules[mname]
+        if mod is None:
+            continue
+        objs = [(k, v) for k, v in vars(mod).items() if inspect.isfunction(v) and v.__module__ == mname]
+        for cname, cls in [(k, v) for k, v in vars(mod).items() if inspect.isclass(v) and v.__module__ == mname]:
+            objs += [(cname + "." + k, v) for k, v in vars(cls).items() if inspect.isfunction(v)]
+        for name, fn in sorted(objs, key=lambda kv: kv[0]):
+            for d in (fn.__defaults__ or ()) + tuple((fn.__kwdefaults__ or {}).values()):
+                if isinstance(d, (list, dict, set)):
+                    out.append((f"{mname}.{name}.default", repr(_plain(d))[:500]))
     out.append(("Rule.context", "set" if "context" in vars(Rule) else "unset"))
     out.append(("primaries", tuple(p.__name__ for p in nreg.rules.primaries)))
     reg = impl.registry()
@@ -180,6 +193,14 @@ def probe_corpus():
         h = header42.header_text("spin.c") + "\n"
         files.append(("spin.c", h + "void\tft_wait(int *flag)\n{\n\twhile (*flag) /* wait */\n\t\t;\n}\n"))
         files.append(("decl.c", h + "static int /* c */\tg_x;\n\nint\tmain(void)\n{\n\tint\t// c\n\t\ti;\n\n\treturn (0);\n}\n"))
+        # guard victims: for every header name used in the pool, the guard mutations of C14 (a guard without its
+        # #define, a wrong symbol) -- sensitive to macro state left behind by an earlier header
+        for hn in ("pool.h", "err.h", "test.h", "rich.h"):
+            g = hn.upper().replace(".", "_")
+            hh = header42.header_text(hn) + "\n"
+            files.append((hn, hh + f"#ifndef {g}\n\nint\tft_value(int n);\n\n#endif\n"))
+            files.append((hn, hh + f"#ifndef {g}X\n# define {g}X\n\nint\tft_value(int n);\n\n#endif\n"))
+            files.append((hn, hh + f"#ifndef {g}\n# define {g}\n\n# include <unistd.h>\n\nint\tft_value(int n);\n\n#endif\n"))
         # whitespace-sensitivity victims: a comment / a tab / two blanks at every token boundary of a small function
         base = "int\tft_probe(int n, char *p)\n{\n\tint\ti;\n\n\ti = 0;\n\twhile (p[i] && i < n)\n\t\ti++;\n\treturn (i);\n}\n"
         toks, _, _ = impl.lex(base, "probe.c")
@@ -188,7 +209,7 @@ def probe_corpus():
         for k, (a, b_) in enumerate(al["spans"]):
             for ins in ("/* c */", "\t", "  "):
                 files.append((f"probe{k}.c", h.replace("spin.c", f"probe{k}.c") + base[:a] + ins + base[a:]))
-        files.sort(key=lambda f: (f[0].endswith(".h"),))
+        files.sort(key=lambda f: (f[0].endswith(".h") and "#ifndef" in f[1] and "# define" in f[1],))
         _probe = files
     return _probe
 
